@@ -16,7 +16,13 @@ namespace detail {
 template <typename T>
 [[nodiscard]] constexpr auto remainder(T x, T y) noexcept -> T
 {
-    if (not is_constant_evaluated()) {
+    // GCC evaluates the builtin in constant expressions too; other compilers need the portable fallback there
+#if defined(TETL_COMPILER_GCC)
+    constexpr auto useBuiltin = true;
+#else
+    auto const useBuiltin = not is_constant_evaluated();
+#endif
+    if (useBuiltin) {
         if constexpr (is_same_v<T, float>) {
 #if __has_builtin(__builtin_remainderf)
             return __builtin_remainderf(x, y);
